@@ -785,6 +785,196 @@ static void op_dsqrt(void)
   esl_alphabet_Destroy(abc);
 }
 
+
+/* ---------------------------------------------------------------------------------------------
+ * dsqdata at byte level: the files esl_dsqdata_Write() produces, and esl_dsqdata_Open() on mutated files.
+ * esl_sqio_Read() is wrapped at link time so that the records reaching esl_dsqdata_Write() can carry an accession
+ * and a taxonomy id (no text format Easel reads sets sq->tax_id; the NCBI reader does).
+ * ------------------------------------------------------------------------------------------- */
+int __real_esl_sqio_Read(ESL_SQFILE *sqfp, ESL_SQ *sq);
+static char *hexdup(const void *p, int64_t n)
+{
+  const unsigned char *b = p; int64_t i; char *o;
+  if (n <= 0 || p == NULL) return strdup("-");
+  o = malloc(2 * n + 1);
+  for (i = 0; i < n; i++) sprintf(o + 2*i, "%02x", b[i]);
+  return o;
+}
+static int      g_inj_n = 0, g_inj_count = 0;
+static BYTES   *g_inj_accs = NULL;
+static int32_t *g_inj_tax  = NULL;
+int __wrap_esl_sqio_Read(ESL_SQFILE *sqfp, ESL_SQ *sq)
+{
+  int st = __real_esl_sqio_Read(sqfp, sq);
+  if (st == eslOK && g_inj_n > 0) {
+    int i = g_inj_count++ % g_inj_n;
+    if (g_inj_accs) esl_sq_SetAccession(sq, (char *) g_inj_accs[i].p);
+    if (g_inj_tax)  sq->tax_id = g_inj_tax[i];
+  }
+  return st;
+}
+
+typedef struct { int n; BYTES *names, *accs, *descs, *dsqs; int32_t *taxids; int nn, na, nd, ns; ESL_ALPHABET *abc; char base[256], fa[300]; } DBARGS;
+
+static void dbargs_free(DBARGS *a)
+{
+  int i;
+  for (i = 0; i < a->nn; i++) free(a->names[i].p);
+  for (i = 0; i < a->na; i++) free(a->accs[i].p);
+  for (i = 0; i < a->nd; i++) free(a->descs[i].p);
+  for (i = 0; i < a->ns; i++) free(a->dsqs[i].p);
+  free(a->names); free(a->accs); free(a->descs); free(a->dsqs); free(a->taxids);
+  if (a->abc) esl_alphabet_Destroy(a->abc);
+}
+
+static int dbargs_parse(DBARGS *a)
+{
+  const char *abcname = h_arg("abc") ? h_arg("abc") : "dna", *t = h_arg("taxids");
+  int i;
+  memset(a, 0, sizeof(*a));
+  a->nn = split_hexlist(h_arg("names"), &a->names); a->nd = split_hexlist(h_arg("descs"), &a->descs); a->ns = split_hexlist(h_arg("dsq"), &a->dsqs);
+  if (h_arg("accs")) a->na = split_hexlist(h_arg("accs"), &a->accs);
+  else { a->accs = malloc(sizeof(BYTES) * (a->nn + 1)); a->na = a->nn; for (i = 0; i < a->nn; i++) { a->accs[i].p = calloc(1, 1); a->accs[i].n = 0; } }
+  a->n = a->nn;
+  a->taxids = malloc(sizeof(int32_t) * (a->n + 1));
+  for (i = 0; i < a->n; i++) a->taxids[i] = -1;
+  if (t && strcmp(t, "-") == 0) t = NULL;
+  for (i = 0; t && i < a->n && *t; i++) { char *e; a->taxids[i] = (int32_t) strtol(t, &e, 10); t = (*e == ',') ? e + 1 : e; }
+  a->abc = esl_alphabet_Create(strcmp(abcname, "amino") == 0 ? eslAMINO : strcmp(abcname, "rna") == 0 ? eslRNA : eslDNA);
+  snprintf(a->base, sizeof(a->base), "c12_%d.db", (int) getpid()); snprintf(a->fa, sizeof(a->fa), "%s.fa", a->base);
+  return (a->nd == a->n && a->ns == a->n && a->na == a->n) ? eslOK : eslFAIL;
+}
+
+/* FASTA file -> real esl_dsqdata_Write (accessions / taxonomy ids injected into the records it reads) */
+static int db_write(DBARGS *a)
+{
+  FILE *fp; int i, st; int64_t k; ESL_SQFILE *sqfp = NULL; char errbuf[eslERRBUFSIZE];
+  if ((fp = fopen(a->fa, "w")) == NULL) return eslESYS;
+  for (i = 0; i < a->n; i++) {
+    fprintf(fp, ">%s", (char *) a->names[i].p);
+    if (a->descs[i].n) fprintf(fp, " %s", (char *) a->descs[i].p);
+    fputc('\n', fp);
+    for (k = 0; k < a->dsqs[i].n; k++) { fputc(a->abc->sym[a->dsqs[i].p[k]], fp); if (k % 60 == 59) fputc('\n', fp); }
+    if (a->dsqs[i].n % 60) fputc('\n', fp);
+  }
+  fclose(fp);
+  errbuf[0] = 0;
+  if ((st = esl_sqfile_OpenDigital(a->abc, a->fa, eslSQFILE_FASTA, NULL, &sqfp)) != eslOK) return st;
+  g_inj_n = a->n; g_inj_count = 0; g_inj_accs = a->accs; g_inj_tax = a->taxids;
+  st = esl_dsqdata_Write(sqfp, a->base, errbuf);
+  g_inj_n = 0; g_inj_accs = NULL; g_inj_tax = NULL;
+  esl_sqfile_Close(sqfp);
+  return st;
+}
+
+static unsigned char *slurp(const char *path, int64_t *ret_n)
+{
+  FILE *fp = fopen(path, "rb"); unsigned char *b; long n;
+  if (! fp) { *ret_n = -1; return NULL; }
+  fseek(fp, 0, SEEK_END); n = ftell(fp); fseek(fp, 0, SEEK_SET);
+  b = malloc(n + 1); if (fread(b, 1, n, fp) != (size_t) n) n = -1; fclose(fp);
+  *ret_n = n; return b;
+}
+
+static const char *db_ext[] = { "", ".dsqi", ".dsqm", ".dsqs" };
+static void db_remove(DBARGS *a)
+{ char path[300]; int i; remove(a->fa); for (i = 0; i < 4; i++) { snprintf(path, sizeof(path), "%s%s", a->base, db_ext[i]); remove(path); } }
+
+static uint32_t db_tag(DBARGS *a)
+{ char path[300]; int64_t n; unsigned char *b; uint32_t tag = 0; snprintf(path, sizeof(path), "%s.dsqi", a->base); b = slurp(path, &n); if (b && n >= 8) memcpy(&tag, b + 4, 4); free(b); return tag; }
+
+/* dsqwrite: the bytes of the four files */
+static void op_dsqwrite(void)
+{
+  DBARGS a; int st, i; char path[300]; char *hexs[4] = { NULL, NULL, NULL, NULL }; char *fnhex;
+  if (dbargs_parse(&a) != eslOK) { h_out("bad-op"); dbargs_free(&a); return; }
+  if ((st = db_write(&a)) != eslOK) { h_out("write-%s", h_status(st)); db_remove(&a); dbargs_free(&a); return; }
+  for (i = 0; i < 4; i++) {
+    int64_t n; unsigned char *b; snprintf(path, sizeof(path), "%s%s", a.base, db_ext[i]); b = slurp(path, &n);
+    hexs[i] = hexdup(b, n); free(b);
+  }
+  fnhex = hexdup((unsigned char *) a.fa, strlen(a.fa));
+  h_out("ok stub=%s dsqi=%s dsqm=%s dsqs=%s tag=%" PRIu32 " fname=%s", hexs[0], hexs[1], hexs[2], hexs[3], db_tag(&a), fnhex);
+  for (i = 0; i < 4; i++) free(hexs[i]);
+  free(fnhex);
+  db_remove(&a); dbargs_free(&a);
+}
+
+/* dsqopen: write, mutate bytes of the files, esl_dsqdata_Open; on success read everything with one consumer */
+static void op_dsqopen(void)
+{
+  DBARGS a; int st, i; char path[300]; const char *mut = h_arg("mut"), *expect = h_arg("expect");
+  ESL_ALPHABET *abc = NULL; ESL_DSQDATA *dd = NULL; uint32_t tag; char *fnhex;
+  if (dbargs_parse(&a) != eslOK) { h_out("bad-op"); dbargs_free(&a); return; }
+  if ((st = db_write(&a)) != eslOK) { h_out("write-%s", h_status(st)); db_remove(&a); dbargs_free(&a); return; }
+  tag = db_tag(&a);
+  fnhex = hexdup((unsigned char *) a.fa, strlen(a.fa));
+  if (mut && strcmp(mut, "-") != 0) {
+    char *copy = strdup(mut), *tok, *save = NULL;
+    for (tok = strtok_r(copy, ",", &save); tok; tok = strtok_r(NULL, ",", &save)) {
+      char which[16], what[16]; long v; int64_t n; unsigned char *b; FILE *fp; const char *ext;
+      if (sscanf(tok, "%15[^:]:%15[^:]:%ld", which, what, &v) != 3) continue;
+      ext = strcmp(which, "stub") == 0 ? "" : strcmp(which, "dsqi") == 0 ? ".dsqi" : strcmp(which, "dsqm") == 0 ? ".dsqm" : ".dsqs";
+      snprintf(path, sizeof(path), "%s%s", a.base, ext); b = slurp(path, &n);
+      if (! b) continue;
+      if (strcmp(what, "trunc") == 0) { if (v < n) n = v; }
+      else { long off = atol(what); if (off < n) b[off] ^= (unsigned char) v; }
+      fp = fopen(path, "wb"); fwrite(b, 1, n, fp); fclose(fp); free(b);
+    }
+    free(copy);
+  }
+  if (expect && strcmp(expect, "none") != 0)
+    abc = esl_alphabet_Create(strcmp(expect, "amino") == 0 ? eslAMINO : strcmp(expect, "rna") == 0 ? eslRNA : eslDNA);
+  esl_verif_dsqdata_maxseq = (int) h_argi("maxseq", 0); esl_verif_dsqdata_maxpacket = (int) h_argi("maxpacket", 0); esl_verif_dsqdata_unpackers = (int) h_argi("unpackers", 0);
+  g_perturb = 0; g_ptrace = 0; g_dd = NULL; memset(&tctx, 0, sizeof(tctx)); tctx.rng = 12345;
+  { int had_abc = (abc != NULL);
+    st = esl_dsqdata_Open(&abc, a.base, 1, &dd);
+    if (st != eslOK) {
+      char msg[eslERRBUFSIZE + 1] = "-"; char *q;
+      if (dd) {
+        if (dd->errbuf[0]) {
+          strncpy(msg, dd->errbuf, eslERRBUFSIZE); msg[eslERRBUFSIZE] = 0;
+          if (strncmp(msg, "data files use", 14) == 0) msg[14] = 0;
+          if (strncmp(msg, "index file has invalid alphabet type", 36) == 0) msg[36] = 0;
+          for (q = msg; *q; q++) if (*q == ' ' || *q == '\n') *q = '_';
+        }
+        if (st == eslEFORMAT || st == eslENOTFOUND) {     /* normal errors: <dd> comes back with its errbuf, files still open */
+          if (dd->stubfp) fclose(dd->stubfp);
+          if (dd->ifp) fclose(dd->ifp);
+          if (dd->mfp) fclose(dd->mfp);
+          if (dd->sfp) fclose(dd->sfp);
+          free(dd->basename); free(dd);
+        }
+      }
+      h_out("open-%s msg=%s tag=%" PRIu32 " fname=%s", h_status(st), msg, tag, fnhex);
+      if (! had_abc) abc = NULL;
+    } else {
+      ESL_DSQDATA_CHUNK *chu; uint64_t h = 0xcbf29ce484222325ull; int nseq = 0, nch = 0; size_t clen = 0; char *cstr = malloc(64); size_t ccap = 64;
+      char hdr[256];
+      snprintf(hdr, sizeof(hdr), "%" PRIu64 "/%" PRIu64 "/%" PRIu64 "/%" PRIu32 "/%" PRIu32 "/%" PRIu32 "/%" PRIu32 "/%d/%d", dd->nseq, dd->nres, dd->max_seqlen,
+               dd->max_namelen, dd->max_acclen, dd->max_desclen, dd->flags, dd->abc_r->type, dd->pack5 ? 5 : 2);
+      cstr[0] = 0;
+      while ((st = esl_dsqdata_Read(dd, &chu)) == eslOK) {
+        if (clen + 64 > ccap) { ccap *= 2; cstr = realloc(cstr, ccap); }
+        clen += sprintf(cstr + clen, "%s%" PRId64 ":%d:%d", nch ? "," : "", chu->i0, chu->N, chu->pn); nch++;
+        for (i = 0; i < chu->N; i++) {
+          h = fnv_bytes(h, chu->name[i], strlen(chu->name[i]) + 1); h = fnv_bytes(h, chu->acc[i], strlen(chu->acc[i]) + 1); h = fnv_bytes(h, chu->desc[i], strlen(chu->desc[i]) + 1);
+          h = fnv_u64(h, (uint64_t)(int64_t) chu->taxid[i]); h = fnv_u64(h, (uint64_t) chu->L[i]); h = fnv_bytes(h, chu->dsq[i] + 1, chu->L[i]);
+          nseq++;
+        }
+        esl_dsqdata_Recycle(dd, chu);
+      }
+      esl_dsqdata_Close(dd);
+      h_out("open-ok hdr=%s nseq=%d chunks=%s digest=%" PRIu64 " tag=%" PRIu32 " fname=%s", hdr, nseq, nch ? cstr : "-", h, tag, fnhex);
+      free(cstr);
+    }
+  }
+  if (abc) esl_alphabet_Destroy(abc);
+  esl_verif_dsqdata_maxseq = esl_verif_dsqdata_maxpacket = esl_verif_dsqdata_unpackers = 0;
+  free(fnhex);
+  db_remove(&a); dbargs_free(&a);
+}
+
 /* ---------------------------------------------------------------------------------------------
  * protocol
  * ------------------------------------------------------------------------------------------- */
@@ -815,6 +1005,12 @@ static void h_op(void)
   else if (strcmp(op, "rt2") == 0)         op_rt(0);
   else if (strcmp(op, "unpackchunk") == 0) op_unpackchunk();
   else if (strcmp(op, "wq") == 0)          op_wq();
+  else if (strcmp(op, "dsqwrite") == 0)    op_dsqwrite();
+  else if (strcmp(op, "dsqopen") == 0) {
+    signal(SIGALRM, on_alarm); alarm(getenv("C12_WATCHDOG") ? (unsigned) atoi(getenv("C12_WATCHDOG")) : 45);
+    op_dsqopen();
+    alarm(0);
+  }
   else if (strcmp(op, "wqrun") == 0 || strcmp(op, "dsqrt") == 0 || strcmp(op, "thrun") == 0) {
     /* watchdog: a deadlock becomes a process death ("fault signal:14" for this case). One deadlock per check run is
      * enough evidence: later threaded ops of the same run are answered at once instead of waiting 45 s each. */
